@@ -64,7 +64,11 @@ OBJ_PARAM, LST_PARAM = "q", "m"
 
 
 class Unsupported(Exception):
-    """The model left the interpreter's domain (fuel exhausted, undefined name): a generator bug."""
+    """The model left the interpreter's domain (undefined name, unguarded recursion): a generator bug."""
+
+
+class TooLong(Unsupported):
+    """More statement instances than the fuel allows (nested loops x recursion): the case is skipped."""
 
 
 # --------------------------------------------------------------------------------------------------
@@ -257,7 +261,7 @@ class Interpreter:
     def _tick(self, line: int, kind: str) -> None:
         self.instances += 1
         if self.instances > self.fuel:
-            raise Unsupported("fuel exhausted")
+            raise TooLong("fuel exhausted")
         self.executed.add(line)
         self.kinds[line] = kind
 
@@ -302,7 +306,7 @@ class Interpreter:
             if k == "self":
                 b, db, ob = env["a1"]
                 b -= 1
-                if b < 0 or self.depth >= 3:
+                if b < 0:
                     raise Unsupported("unguarded recursion")
             else:
                 b, db, ob = self.ev(e[3], env, line, ctrl)
